@@ -269,6 +269,13 @@ func runC20(c *h.Ctx, idx int, events bool) {
 			inc = append(inc, siblingDir, sibling)
 		}
 	}
+	if !events && idx < 100000 && len(tree.dirs) > 0 && (r.Chance(30) || idx%8 == 5) {
+		// everything is included and a directory (not what is below it) is excluded: excluding a directory says nothing
+		// about its content
+		d := tree.dirs[r.Intn(len(tree.dirs))]
+		inc = append(inc, []string{"**/*", "**"}[r.Intn(2)])
+		exc = append(exc, []string{d, "*/" + d[strings.LastIndexByte(d, '/')+1:], "???", "*"}[r.Intn(4)])
+	}
 	if idx >= 100000 {
 		// many patterns: every file by its own name, and two wildcards on top
 		inc, exc = nil, nil
